@@ -311,7 +311,7 @@ func (e *Engine) callResultTaint(fi *effects.FuncInfo, c *ssa.Call, k int) bool 
 	cc := c.Common()
 	if b, ok := cc.Value.(*ssa.Builtin); ok {
 		switch b.Name() {
-		case "len", "cap", "copy":
+		case "len", "cap", "copy", "append":
 			return false
 		}
 		return true
@@ -340,6 +340,10 @@ func (e *Engine) call(fi *effects.FuncInfo, c *ssa.Call) {
 	cc := c.Common()
 	if b, ok := cc.Value.(*ssa.Builtin); ok {
 		if b.Name() == "copy" && e.memTainted(fi, cc.Args[1]) {
+			e.taintObj(fi, cc.Args[0])
+		}
+		if b.Name() == "append" && (e.memTainted(fi, cc.Args[1]) || e.memTainted(fi, cc.Args[0])) {
+			e.taintObj(fi, c)
 			e.taintObj(fi, cc.Args[0])
 		}
 		return
